@@ -290,7 +290,7 @@ func init() {
 		ID:    "C11",
 		Title: "Server messages and environment changes are surfaced exactly once",
 		Pkgs:  []string{"./tds"},
-		Funcs: []string{`^\(\*tds\.Channel\)\.(handleSpecialPackage|callEnvChangeHooks|callEEDHooks|RegisterEEDHooks|RegisterEnvChangeHooks|tryParsePackage)$`, `^\(\*tds\.(EnvChangePackage|EnvChangePackageField)\)\.ReadFrom$`},
+		Funcs: []string{`^\(\*tds\.Channel\)\.(handleSpecialPackage|callEnvChangeHooks|callEEDHooks|RegisterEEDHooks|RegisterEnvChangeHooks|tryParsePackage|NextPackageUntil)$`, `^\(\*tds\.(EnvChangePackage|EnvChangePackageField)\)\.ReadFrom$`},
 		Assumptions: []string{
 			"hooks are client code that cannot reach unexported library state (functype contracts of EEDHook / EnvChangeHook)",
 			"strconv.Atoi is modelled natively (result unconstrained on success)",
@@ -298,6 +298,7 @@ func init() {
 		},
 		Notes: []string{
 			"proved (unbounded, any number of hooks and members): callEEDHooks / callEnvChangeHooks invoke every registered hook exactly once per call (ghost invocation counters, loop invariant); handleSpecialPackage consumes environment changes and informational messages (never passes them on), passes every other package, calls the message hooks exactly once for a non-informational message and never for an informational one, and applies a packet size only if it fits the packet header; tryParsePackage never puts an environment change or an informational message on the package channel and calls the hooks before the package is queued; nil hooks are rejected at registration",
+			"proved (unbounded): NextPackageUntil returns a package together with an error only when the consumer's callback returned exactly io.EOF, and then returns that io.EOF unchanged ($cbeof ghost set after the callback call), so a callback error that merely wraps io.EOF takes the aggregation path",
 			"not mechanised: that the error returned by NextPackageUntil after a callback failure carries all messages received so far in order and still matches the callback's error (errors.Is through EEDError.Unwrap/Is is outside the generator's error model), and the per-member count of environment change hook invocations (a product, nonlinear)",
 		},
 	}
